@@ -147,7 +147,18 @@ func checkCLI(cfg *propCfg, tier string, seed uint64, scratch string, start time
 			}
 		}()
 	}
-	wg.Wait()
+	// a case that is still running long after the budget has ended (a child is capped at
+	// 150 s, the model's library calls are not) is infrastructure trouble, never a verdict
+	finished := make(chan struct{})
+	go func() { wg.Wait(); close(finished) }()
+	select {
+	case <-finished:
+	case <-time.After(time.Until(deadline) + 6*time.Minute):
+		mu.Lock()
+		n := next
+		mu.Unlock()
+		infra("a scenario (one of the last %d started, up to case %d) was still running 6 minutes after the budget had ended", workers, n)
+	}
 	if infraMsg != "" {
 		infra("%s", infraMsg)
 	}
